@@ -914,6 +914,29 @@ std::size_t CppCheck::calculateHash(const Preprocessor& preprocessor, const std:
         toolinfo << a.args;
     }
     toolinfo << mSettings.premiumArgs;
+    // options which affect the results of the analysis
+    toolinfo << (mSettings.certainty.isEnabled(Certainty::inconclusive) ? 'i' : ' ');
+    toolinfo << (mSettings.checks.isEnabled(Checks::missingInclude) ? 'm' : ' ');
+    toolinfo << (mSettings.checks.isEnabled(Checks::unusedFunction) ? 'u' : ' ');
+    for (const std::string &undef : mSettings.userUndefs)
+        toolinfo << " -U" << undef;
+    for (const std::string &path : mSettings.includePaths)
+        toolinfo << " -I" << path;
+    for (const std::string &inc : mSettings.userIncludes)
+        toolinfo << " --include=" << inc;
+    for (const std::string &lib : mSettings.libraries)
+        toolinfo << " --library=" << lib;
+    toolinfo << ' ' << mSettings.standards.getC() << ' ' << mSettings.standards.getCPP();
+    toolinfo << ' ' << mSettings.platform.toString()
+             << ' ' << static_cast<unsigned>(mSettings.platform.char_bit)
+             << ' ' << static_cast<unsigned>(mSettings.platform.short_bit)
+             << ' ' << static_cast<unsigned>(mSettings.platform.int_bit)
+             << ' ' << static_cast<unsigned>(mSettings.platform.long_bit)
+             << ' ' << static_cast<unsigned>(mSettings.platform.long_long_bit)
+             << ' ' << mSettings.platform.sizeof_pointer
+             << ' ' << mSettings.platform.sizeof_size_t
+             << ' ' << mSettings.platform.sizeof_wchar_t
+             << ' ' << mSettings.platform.defaultSign;
     // TODO: do we need to add more options?
     mSuppressions.nomsg.dump(toolinfo, filePath);
     return preprocessor.calculateHash(toolinfo.str());
